@@ -9,7 +9,7 @@ from ..core import b, u
 PROP = "C10"
 LEVEL = "exploration"
 RULE = ("seeded cases: 4-12 regular files (1 byte .. multi-block) with modes drawn from all 12 permission bits (every special-bit "
-        "combination x sampled rwx), mtimes past / future / with nanoseconds, 0-4 user xattrs, uid/gid pairs (the harness is root, "
+        "combination x sampled rwx), mtimes past / future / before 1970 / with nanoseconds, 0-4 user xattrs, uid/gid pairs (the harness is root, "
         "fchown really works; a quarter of the plain runs instead belong to and run as uid 65534 through setpriv) x flag combinations of --no-perms / --no-timestamps / --ownership x umask {0, 022, 077} x fresh or "
         "overwritten destination (different previous mode, mtime, xattrs) x driver x {ext4, tmpfs}; multi-block files run under "
         "lifo / pct schedules so the last block finishes on an arbitrary worker. Oracle on exit 0: mode (07777), mtime_ns, user.* "
@@ -18,7 +18,9 @@ RULE = ("seeded cases: 4-12 regular files (1 byte .. multi-block) with modes dra
         "last-byte. distinct_nontrivial = distinct (driver, flags, special bits, fresh/overwritten, owner changed, fs, schedule)")
 ASSUMPTIONS = ["directory and symlink metadata are not claimed by the statement", "atime is not compared"]
 
-MTIMES = [1_000_000_000_000_000_000, 978_307_200_123_456_789, 2_000_000_000_999_999_999, 1_234_567_890_000_000_001, 1, 4_000_000_000_500_000_000]
+MTIMES = [1_000_000_000_000_000_000, 978_307_200_123_456_789, 2_000_000_000_999_999_999, 1_234_567_890_000_000_001, 1, 4_000_000_000_500_000_000,
+          # before 1970 (negative seconds, with and without a fractional part), the last nanosecond of 1969, and beyond 2^32 seconds
+          -14_182_939_750_000_000, -1, -86_400_000_000_000, -2_000_000_000_123_456_789, 5_000_000_000_000_000_777]
 
 
 def gen_cases(tier, seed):
